@@ -148,6 +148,38 @@ Definition spec_event_known (code : N) : bool :=
   (code =? SND_EVT_JACK_CONNECTED) || (code =? SND_EVT_JACK_DISCONNECTED)
   || (code =? SND_EVT_PCM_PERIOD_ELAPSED) || (code =? SND_EVT_PCM_XRUN).
 
+(* an event as the device writes it into an eventq buffer: 8 bytes, le32 code then le32 data; a buffer that does not
+   hold exactly 8 written bytes holds no event *)
+Definition spec_decode_event (bs : list N) : option (N * N) :=
+  if lenN bs =? 8 then Some (fld bs 0 4, fld bs 4 4) else None.
+(* what the driver owes its caller for the written part of a completed eventq buffer: nothing (no event), the event
+   (type, data), or - for a code that is none of the four events of 5.14.6 - an error *)
+Definition spec_notification (bs : list N) (err : N) : outcome (option (N * N)) :=
+  match spec_decode_event bs with
+  | None => Ok None
+  | Some (code, data) => if spec_event_known code then Ok (Some (code, data)) else Err err
+  end.
+
+(* ---------- configuration layout (5.14.4): le32 jacks at 0, le32 streams at 4, le32 chmaps at 8 ---------- *)
+Definition SND_CFG_JACKS_OFF : N := 0.
+Definition SND_CFG_STREAMS_OFF : N := 4.
+Definition SND_CFG_CHMAPS_OFF : N := 8.
+Definition spec_snd_config (cfg : list N) : N * N * N := (fld cfg 0 4, fld cfg 4 4, fld cfg 8 4).
+
+(* ---------- the answer to a PCM_INFO query (5.14.6.1 / 5.14.6.6.2) ---------- *)
+(* item i of the answer: the 32 bytes behind the 4-byte status and i earlier items *)
+Definition spec_pcm_item (rsp : list N) (i : N) : list N := firstn 32 (skipn (N.to_nat (4 + 32 * i)) rsp).
+(* struct virtio_snd_pcm_info { struct virtio_snd_info hdr { le32 hda_fn_nid }; le32 features; le64 formats;
+                                le64 rates; u8 direction; u8 channels_min; u8 channels_max; u8 padding[5]; } *)
+Definition spec_dec_pcm_info (item : list N) : pcm_info :=
+  mkPcm (fld item 0 4) (fld item 4 4) (fld item 8 8) (fld item 16 8) (fld item 24 1) (fld item 25 1) (fld item 26 1).
+(* the items 0 .. count-1 *)
+Fixpoint spec_pcm_items (rsp : list N) (i : N) (count : nat) : list pcm_info :=
+  match count with
+  | O => []
+  | S k => spec_dec_pcm_info (spec_pcm_item rsp i) :: spec_pcm_items rsp (i + 1) k
+  end.
+
 (* ---------- what a device derives from the infos it reported ---------- *)
 Fixpoint streams_with_dir (infos : list pcm_info) (dir : N) (i : N) : list N :=
   match infos with
@@ -164,3 +196,15 @@ Definition snd_result_conforms (status class : N) : bool :=
 (* pieces: the data parts of the TX messages, in the order they were made available *)
 Definition spec_pieces_ok (period : N) (frames : list N) (pieces : list (list N)) : Prop :=
   concat pieces = frames /\ Forall (fun c => 1 <= lenN c <= period) pieces.
+
+(* ---------- what each stream query must return, given the device's answer to PCM_INFO for `count` streams ---------- *)
+(* which: 0 output streams, 1 input streams (ids in ascending order), 2 rates bitmap, 3 formats bitmap,
+          4 channels_min, channels_max, 5 features; err: the error for a stream id the device did not report *)
+Definition spec_stream_query (rsp : list N) (count : nat) (which sid : N) (err : N) : outcome (list N) :=
+  let infos := spec_pcm_items rsp 0 count in
+  if which =? 0 then Ok (streams_with_dir infos SND_D_OUTPUT 0)
+  else if which =? 1 then Ok (streams_with_dir infos SND_D_INPUT 0)
+  else if N.of_nat count <=? sid then Err err
+  else let p := spec_dec_pcm_info (spec_pcm_item rsp sid) in
+       Ok (if which =? 2 then [p_rates p] else if which =? 3 then [p_formats p]
+           else if which =? 4 then [p_chmin p; p_chmax p] else [p_features p]).
